@@ -239,6 +239,8 @@ pub enum Op {
     ModelSetParams(Vec<Fx>),
     ModelEval,
     ModelDeriv(usize),
+    /// `into_parallel()` and continue with whatever flavour the library returns
+    IntoParallel,
 }
 
 /// one decision of the simulated work-stealing pool per `join`
